@@ -720,10 +720,10 @@ class Engine:
                 value = fn()
             except PathAbort:
                 status = 'pruned'
-            except Inconclusive:
+            except Inconclusive as e:
                 self.in_run = False
                 self.solver.pop()
-                raise
+                raise Inconclusive(str(e)) from None
             except Exception as e:  # noqa: an exception of the code under test on a feasible path
                 tbs = traceback.extract_tb(e.__traceback__)
                 if isinstance(e, AssertionError) and any(
